@@ -47,7 +47,11 @@ Interpret::~Interpret() = default;
 PTRef
 Interpret::getParsedFormula()
 {
-    PTRef root = main_solver->getLogic().mkAnd(assertions);
+    vec<PTRef> current;
+    for (PTRef tr : assertions) {
+        if (tr != PTRef_Undef) { current.push(tr); }
+    }
+    PTRef root = main_solver->getLogic().mkAnd(std::move(current));
     return root;
 }
 
@@ -230,6 +234,7 @@ void Interpret::interp(ASTNode& n) {
                             main_solver->insertFormula(tr);
                             // only now: the position in `assertions` must equal the partition index given by the solver
                             assertions.push(tr);
+                            assertionLevels.push(main_solver->getAssertionLevel());
                             notify_success();
                         } catch (ApiException const & e) {
                             notify_formatted(true, e.what());
@@ -613,6 +618,10 @@ void Interpret::pop(int n) {
                 success = main_solver->pop();
                 if (success) {
                     defined_functions.popScope();
+                    // assertions of the popped level are no longer current: they must not be found by name any more
+                    for (int i = 0; i < assertions.size(); ++i) {
+                        if (assertionLevels[i] > main_solver->getAssertionLevel()) { assertions[i] = PTRef_Undef; }
+                    }
                 }
             }
             if (success) {
